@@ -1,14 +1,70 @@
-"""Replay of witnesses / counterexamples against the REAL crates (native build of /verif/replay against the scratch copy)."""
-import os, sys, json
+"""Replay of witnesses / counterexamples against the REAL crates: /verif/replay is copied next to a PRISTINE copy of
+/repo's working tree (no splice) and built natively with the repository's own toolchain; each witness binary exits 0
+when the property holds for its input and 1 when the real code violates it."""
+import os, sys, json, shutil, fcntl
 import runner as R
+
+_built = {}
+
+
+def build(scratch):
+    if scratch in _built: return _built[scratch]
+    work = os.path.join(scratch, 'native')
+    os.makedirs(work, exist_ok=True)
+    rc, out, err, _ = R.run(['rsync', '-a', '--delete', '--exclude', 'target', '--exclude', '.git', R.REPO + '/', os.path.join(work, 'repo') + '/'])
+    if rc != 0: raise R.Undecided('replay: snapshot failed')
+    shutil.copytree(os.path.join(R.VERIF, 'replay'), os.path.join(work, 'replay'), dirs_exist_ok=True)
+    lock = os.path.join(work, 'repo', 'Cargo.lock')
+    if os.path.exists(lock): shutil.copy(lock, os.path.join(work, 'replay', 'Cargo.lock'))
+    tgt = os.path.join(R.CACHE, 'replay-target')
+    os.makedirs(R.CACHE, exist_ok=True)
+    with open(os.path.join(R.CACHE, 'replay.lock'), 'w') as lk:
+        fcntl.flock(lk, fcntl.LOCK_EX)
+        rc, out, err, wall = R.run(['cargo', 'build', '--offline', '--bins'], cwd=os.path.join(work, 'replay'), env={'CARGO_TARGET_DIR': tgt}, timeout=1800)
+        if rc != 0:
+            _built[scratch] = (None, err[-3000:])
+            return _built[scratch]
+        # copy the binaries out so that concurrent checks do not overwrite each other's
+        bindir = os.path.join(work, 'bin'); os.makedirs(bindir, exist_ok=True)
+        for f in os.listdir(os.path.join(R.VERIF, 'replay', 'src', 'bin')):
+            b = f[:-3]
+            p = os.path.join(tgt, 'debug', b)
+            if os.path.exists(p): shutil.copy(p, os.path.join(bindir, b))
+    _built[scratch] = (bindir, '')
+    return _built[scratch]
+
+
+def run_bin(name, scratch, args=(), stdin=None, timeout=120):
+    bindir, err = build(scratch)
+    if bindir is None:
+        return {'ran': False, 'reason': 'native build of the real crates failed: ' + err[-500:]}
+    p = os.path.join(bindir, name)
+    if not os.path.exists(p):
+        return {'ran': False, 'reason': 'no witness binary ' + name}
+    import subprocess
+    try:
+        pr = subprocess.run([p] + list(args), input=stdin, stdout=subprocess.PIPE, stderr=subprocess.PIPE, timeout=timeout)
+    except subprocess.TimeoutExpired:
+        return {'ran': True, 'fails': True, 'output': 'TIMEOUT after %ds (hang)' % timeout}
+    out = pr.stdout.decode('utf-8', 'replace')[-1500:]
+    return {'ran': True, 'fails': pr.returncode != 0, 'rc': pr.returncode, 'output': out, 'stderr': pr.stderr.decode('utf-8', 'replace')[-600:]}
 
 
 def run_witness(kf, scratch, root):
-    return {'ran': False, 'reason': 'replay crate under construction'}
+    return run_bin(kf['witness'], scratch)
 
 
 def replay_file(path):
     d = json.load(open(path))
-    print(json.dumps({k: d.get(k) for k in ('property', 'obligation', 'function', 'message', 'where')}, indent=1))
-    print(d.get('verifier_output', ''))
+    print(json.dumps({k: d.get(k) for k in ('property', 'obligation', 'function', 'message', 'where', 'failing_input')}, indent=1))
+    print(d.get('verifier_output') or '')
+    if d.get('replay_bin'):
+        import tempfile
+        scratch = tempfile.mkdtemp(prefix='vx-replay-', dir='/var/tmp')
+        try:
+            r = run_bin(d['replay_bin'], scratch, d.get('replay_args', []), (d.get('replay_stdin') or '').encode() or None)
+            print(json.dumps(r, indent=1))
+            return 1 if r.get('fails') else 0
+        finally:
+            shutil.rmtree(scratch, ignore_errors=True)
     return 0
